@@ -7,6 +7,17 @@ CHECKS = {
    text="TLC explores every interleaving of PduLoop.tla (one action per shared-state access of the real code) for 1-2 slots and 2 tasks and proves MutualExclusion, NoWriterWhileViewed, ClaimOnlyWhenFree and LifecycleOrder; TLC-generated behaviours and seeded schedules are then executed on the real PDU loop under a token scheduler, every recorded trace is validated step by step against the specification (PduLoopTrace) and judged by the TLA+ monitor (PduLoopMonitor).",
    note="Sequentially consistent interleavings; bounds 1-2 slots / 2-3 tasks exhaustive, beyond seeded; access windows are those bracketed by the BufBegin/BufEnd yield points."),
 }
+CHECKS.update({
+ "C01": dict(engine="pduloop", section="6/C01",
+   text="TLC proves NoMisroute, ViewStable, OkIsOwn, NoLostWake, NoGenuineReject and the liveness property Resolves (every request completes, under weak fairness) for every interleaving of PduLoop.tla with 1-2 slots and 2 tasks under the property's assumptions; TLC behaviours and seeded schedules (up to 4 slots / 3 tasks, real 8-bit index wrap) run on the real PDU loop with random payloads; every trace is validated against the specification and the monitor compares the bytes and working counter each caller got with what the simulated wire generated, and every front-trim 0..len+1 and later view read with the expected slice.",
+   note="Sequentially consistent interleavings; no deadline fires, response only after mark_sent, index assumption scaled to IdxMod=4 in the exhaustive runs (real 256 in replays); views taken through first_pdu (the public single-datagram path)."),
+ "C03": dict(engine="pduloop", section="6/C03",
+   text="TLC proves NoLeak, NoOrphan and FreeMeansUnowned on PduLoop.tla for each fault family (deadlines with retries, dropped futures, lost/duplicate responses, failed and partial sends, dropped created frames) separately and exhaustively; histories from TLC and from a seeded scheduler combining all families run on the real loop, are drained, and end with the property's probe (allocate until failure through the real allocator; must be exactly N).",
+   note="Release exactly while TX/RX is inside the buffer is cut (C06's window); PduLoop::reset is not yet part of the model (probe only)."),
+ "C06": dict(engine="pduloop", section="6/C06",
+   text="TLC proves, with deadlines firing at every point, MutualExclusion, NoMisroute, OkIsOwn (a timeout is never success), NoLeak, NoOrphan, TxCountBound, TxCountExact under the property's transmit-promptness assumption, and the liveness property Resolves (never hanging); band B without the cut reproduces the listed known finding from a TLC counterexample executed on the real code. Seeded and TLC-generated schedules on the real loop are validated against the specification and judged by the monitor (transmission count, byte-identical retransmissions, no foreign data, no leak, no panic).",
+   note="Known finding F4 (known_findings.json) is cut in band A and must be the only thing band B shows; virtual per-task clocks; retries 0..3."),
+})
 NOT_BUILT = {}
 def main():
     props = [json.loads(l) for l in open(os.path.join(V, "properties.jsonl"))]
